@@ -161,7 +161,10 @@ def execute(stim):
             elif k == 'wsum':
                 blk = edzed.FuncBlock(b['name'], func=lambda *a: wfunc(a), **kw)
             elif k == 'wsum_np':
-                blk = edzed.FuncBlock(b['name'], func=lambda a: wfunc(a), unpack=False, **kw)
+                # unpack=False: the unnamed inputs come as ONE tuple (it has a length, can be indexed
+                # and iterated more than once)
+                blk = edzed.FuncBlock(b['name'], func=lambda a: wfunc(a) + 0 * len(a) + 0 * sum(a[:1]),
+                                      unpack=False, **kw)
             elif k == 'wsum_named':
                 blk = edzed.FuncBlock(b['name'], func=lambda x, y, g: wfunc((x, y) + tuple(g)), **kw)
             elif k == 'mixf':
@@ -213,6 +216,9 @@ def execute(stim):
             else:
                 log.append({'ev': 'error', 'what': repr(err)[:200]})
             return False
+        # consistent from the very moment wait_init() returns (no yield since then)
+        if not end_of_burst():
+            return
         await rt.settle(3)
         if not end_of_burst():
             return
@@ -244,7 +250,9 @@ def execute(stim):
                     if blks[nxt].output is not before[nxt] or blks[nxt].output != before[nxt]:
                         log.append({'ev': 'put', 's': nxt, 'v': code(blks[nxt].output)})
                     nxt = stim['blocks'][nxt - 1].get('fwd')
-            await rt.settle(3)
+            # the simulator handles a whole burst in one step of its task: one yield is enough
+            # (long chains: and more than one would hide a simulator that settles in slices)
+            await rt.settle(1 if stim.get('big') else 3)
             if not end_of_burst():
                 return
 
